@@ -39,14 +39,14 @@ fn outline_bsearch_begin(die_ranges: &Vec<DieRange>, pc: u64) -> (r: Result<usiz
 }
 
 //@ extract: impl DebugInformation / fn find_function_by_pc
-//@   fragment: `let find_pos = match die_ranges.binary_search_by_key(&pc, |dr| dr.range.begin) {` .. `Err(pos) => pos, };`
+//@   fragment: `let find_pos = match` .. `^die_ranges[..find_pos]`
 //@   sig: fn find_pos_of(die_ranges: &Vec<DieRange>, pc: u64) -> (find_pos: usize)
 //@   tail: find_pos
 //@   requires R_sorted: sorted_begin(die_ranges@)
 //@   ensures E_fp0: find_pos <= die_ranges@.len()
 //@   ensures E_fp1: forall|k: int| 0 <= k < find_pos ==> #[trigger] beg(die_ranges@, k) <= pc
 //@   ensures E_fp2: forall|k: int| find_pos <= k < die_ranges@.len() ==> #[trigger] beg(die_ranges@, k) > pc
-//@   outline O_bs: `die_ranges.binary_search_by_key(&pc, |dr| dr.range.begin)` => `outline_bsearch_begin(die_ranges, pc)`
+//@   outline O_bs: `die_ranges.binary_search_by_key($k, $f)` => `outline_bsearch_begin(die_ranges, pc)`
 //@   proof before `let find_pos`: vstd::std_specs::vec::axiom_spec_len(die_ranges);
 //@   proof after `idx += 1; }`: assert(idx < die_ranges@.len() ==> beg(die_ranges@, idx as int) > pc) by { if idx < die_ranges@.len() { assert(beg(die_ranges@, pos as int) <= beg(die_ranges@, idx as int)); } } assert(forall|k: int| idx <= k < die_ranges@.len() ==> beg(die_ranges@, idx as int) <= #[trigger] beg(die_ranges@, k));
 //@   loop 0 invariant I_fp1: pos < idx <= die_ranges@.len() && beg(die_ranges@, pos as int) == pc
